@@ -193,7 +193,12 @@ func CheckRefs() {
 
 // ---- C08: sealed batches
 
-func CheckSealed() {
+func CheckSealed(b uint64) {
+	var r0 api.Batch
+	e0 := zz.OrmRow0(TBatch, &r0, b)
+	ds := DeltaSupply(b)
+	total := zz.QAdd(zz.QAdd(ds.Tradable, ds.Retired), ds.Cancelled)
+	zz.Assert(zz.Implies(zz.And(e0, zz.Not(r0.Open)), zz.QEq(total, q0())), "C08 nothing is minted into a sealed batch")
 	zz.Assert(zz.AllWritten2(TBatch, func(pre *api.Batch, pe bool, post *api.Batch, qe bool) bool {
 		sealed := zz.And(pe, zz.Not(pre.Open))
 		return zz.Implies(sealed, zz.And(zz.Not(post.Open), zz.StrEq(pre.Metadata, post.Metadata)))
